@@ -1,3 +1,502 @@
-import HapVerif.Model.C10
+import HapVerif.Lemmas.C10
+import HapVerif.Props.C16
+import HapVerif.Generated.Facts
+/-!
+# C10 — Gateway API routes attach only where class, listener and namespace rules allow
+
+Model: `HapVerif.C10.sync` (Model/C10.lean), tied to the Go code by the correspondence run
+(`harness/cmd/hv/c10.go`: real gateway converter + real cache facade + real haproxy model).
+Spec: `Admitted` = parentRef designates the Gateway ∧ `ClassOurs` ∧ `SectionOK` ∧ kind
+(`KindListed` ∧ `ProtoCompat`) ∧ `NsOK`, written from docs/content/en/docs/configuration/gateway-api.md
+and the Gateway API semantics of `parentRefs`/`allowedRoutes`.
+
+All theorems quantify over every `World` (any number of classes, namespaces, gateways, listeners,
+routes, parentRefs, rules, matches, hostnames, backendRefs, services) that satisfies object
+identity `WF` (unique gateway ns/name, class names, namespace names, label keys).
+
+## Finding (the code as found deviates from the Spec)
+Two variants of the code are modelled (`fx`): `false` = as found, `true` = with
+/verif/.build/c10-fix-1.patch (`syncTCPRouteGateway` skips listeners whose protocol is not TCP/TLS);
+the driver selects the variant from the regenerated fact `c10TcpProtocolChecked`.
+The full-strength statements
+
+    theorem attach_iff : attaches fx w r pr gw l = true ↔ Admitted w r pr gw l
+    theorem nothing_else_tcp : t ∈ (sync fx w).tcps → ∃ …, Admitted w r pr gw l ∧ t.port = l.port
+
+hold for `fx = true` (`attach_iff_fixed`, `nothing_else_tcp_fixed`) and do NOT hold for the code as
+found: it never reads `listener.Protocol`, so a TCPRoute is attached through an `HTTP` (`HTTPS`, `UDP`, …)
+listener whose allowedRoutes has no `kinds` (or lists TCPRoute) and a TCP service is opened on that
+listener's port (`attach_iff_counterexample`, `nothing_else_tcp_counterexample`; oracle signature
+`tcproute-attached-through-non-tcp-listener`).  What is proved for the code as found: `attach_iff_noproto`
+(it decides exactly class ∧ section ∧ listed kind ∧ namespace rule), `attach_iff_partial` (= the Spec
+whenever the protocol bound holds, in particular for every HTTPRoute: `attach_iff_http`),
+`nothing_else_paths`/`produced_rules` at full strength for HTTPRoutes (both variants), and the TCP
+statements under the side condition `TcpListenersCompat`.
+-/
 namespace HapVerif.C10
+
+/-! ## attach_iff -/
+
+/-- the code's decision for one (route, parentRef, gateway, listener), both variants: parentRef
+designates the Gateway ∧ class ours ∧ section ∧ listed kind ∧ namespace rule, and — repaired variant
+only — the protocol bound -/
+theorem attach_iff_code (fx : Bool) (w : World) (hwf : WF w) (r : Route) (pr : ParentRef) (gw : Gateway) (l : Listener) :
+    attaches fx w r pr gw l = true ↔ AdmittedNoProto w r pr gw l ∧ (fx = true → ProtoCompat r l) := by
+  rw [attaches_iff, resolveParent_iff w hwf, sectionOK_iff, listenerAllowed_iff w hwf, protoGuard_iff]
+  constructor
+  · rintro ⟨⟨h1, h2, h3, h4, h5⟩, hl, hs, hp, ha⟩
+    exact ⟨⟨h1, h2, h3, h4, hl, h5, hs, ha⟩, hp⟩
+  · rintro ⟨⟨h1, h2, h3, h4, hl, h5, hs, ha⟩, hp⟩
+    exact ⟨⟨h1, h2, h3, h4, h5⟩, hl, hs, hp, ha⟩
+
+/-- the code as found decides exactly class ∧ section ∧ listed kind ∧ namespace rule -/
+theorem attach_iff_noproto (w : World) (hwf : WF w) (r : Route) (pr : ParentRef) (gw : Gateway) (l : Listener) :
+    attaches false w r pr gw l = true ↔ AdmittedNoProto w r pr gw l := by
+  rw [attach_iff_code false w hwf]; simp
+
+/-- **attach_iff**, full strength, for the repaired variant -/
+theorem attach_iff_fixed (w : World) (hwf : WF w) (r : Route) (pr : ParentRef) (gw : Gateway) (l : Listener) :
+    attaches true w r pr gw l = true ↔ Admitted w r pr gw l := by
+  rw [attach_iff_code true w hwf]; simp [Admitted]
+
+/-- **attach_iff**, under the protocol bound (full strength fails for the code as found, see
+`attach_iff_counterexample`) -/
+theorem attach_iff_partial (fx : Bool) (w : World) (hwf : WF w) (r : Route) (pr : ParentRef) (gw : Gateway) (l : Listener)
+    (hp : ProtoCompat r l) : attaches fx w r pr gw l = true ↔ Admitted w r pr gw l := by
+  rw [attach_iff_code fx w hwf]
+  exact ⟨fun h => ⟨h.1, hp⟩, fun h => ⟨h.1, fun _ => hp⟩⟩
+
+/-- **attach_iff** holds at full strength for every HTTPRoute -/
+theorem attach_iff_http (fx : Bool) (w : World) (hwf : WF w) (r : Route) (pr : ParentRef) (gw : Gateway) (l : Listener)
+    (hr : r.tcp = false) : attaches fx w r pr gw l = true ↔ Admitted w r pr gw l :=
+  attach_iff_partial fx w hwf r pr gw l (fun h => by rw [hr] at h; cases h)
+
+/-- the code never attaches what the Spec refuses for a reason other than the protocol -/
+theorem attach_sound (fx : Bool) (w : World) (hwf : WF w) (r : Route) (pr : ParentRef) (gw : Gateway) (l : Listener)
+    (h : attaches fx w r pr gw l = true) :
+    RefersGateway pr ∧ ClassOurs w gw ∧ SectionOK pr l ∧
+      ∃ a, l.allowed = some a ∧ KindListed r a ∧ NsOK w gw r a := by
+  have := ((attach_iff_code fx w hwf r pr gw l).1 h).1
+  exact ⟨this.refers, this.classOurs, this.sectOK, this.allowed⟩
+
+/-- an absent allowedRoutes / namespaces / from refuses every route (the conservative side) -/
+theorem undefaulted_refused (fx : Bool) (w : World) (r : Route) (pr : ParentRef) (gw : Gateway) (l : Listener)
+    (h : l.allowed = none ∨ ∃ a, l.allowed = some a ∧ (a.nss = none ∨ ∃ nr, a.nss = some nr ∧ nr.frm = none)) :
+    attaches fx w r pr gw l = false := by
+  unfold attaches listenerAllowed nsAllowed
+  rcases h with h | ⟨a, h, h' | ⟨nr, h', h''⟩⟩
+  · simp [h]
+  · simp [h, h']
+  · simp [h, h', h'']
+
+/-! ### the deviation: a TCPRoute through an HTTP listener -/
+
+def lBad : Listener :=
+  { name := "l1", host := none, proto := "HTTP", port := 80,
+    allowed := some { kinds := [], nss := some { frm := some "Same", sel := none } } }
+def gwBad : Gateway := { ns := "g", name := "gw1", cls := "hap", listeners := [lBad] }
+def prBad : ParentRef := { group := none, kind := none, ns := none, name := "gw1", sect := none }
+def rBad : Route :=
+  { tcp := true, ns := "g", name := "r1", ts := 1, parents := [prBad], hostnames := [],
+    rules := [{ mts := [], refs := [{ svc := "s1", port := some 8080, weight := none }] }] }
+def wBad : World :=
+  { classes := [("hap", true)], nss := [("g", [])], gws := [gwBad], routes := [rBad],
+    svcs := [{ ns := "g", name := "s1", ports := [(8080, ["10.0.0.1:8080"])] }] }
+
+theorem wBad_wf : WF wBad := by
+  constructor <;> simp [wBad]
+
+theorem not_admitted_bad (pr : ParentRef) (gw : Gateway) : ¬ Admitted wBad rBad pr gw lBad := by
+  rintro ⟨_, hp⟩
+  have := hp rfl
+  simp [lBad] at this
+
+/-- full-strength `attach_iff` fails: TCPRoute `g/r1` → Gateway `g/gw1` (our class), listener `l1`
+`protocol: HTTP, port: 80, allowedRoutes: {namespaces: {from: Same}}` is attached by the code -/
+theorem attach_iff_counterexample :
+    WF wBad ∧ attaches false wBad rBad prBad gwBad lBad = true ∧ ¬ Admitted wBad rBad prBad gwBad lBad :=
+  ⟨wBad_wf, by decide, not_admitted_bad _ _⟩
+
+/-- the repaired variant refuses it -/
+theorem counterexample_repaired : attaches true wBad rBad prBad gwBad lBad = false ∧
+    (sync true wBad).tcps = [] ∧ (sync true wBad).backends = [] := by decide +kernel
+
+/-! ## where configuration comes from -/
+
+/-- rule `i` of route `r` with the backend `createBackend` builds for it, reached through parentRef `pr` -/
+structure Site (w : World) (r : Route) (pr : ParentRef) (rule : Rule) (i : Nat) (b : Backend) : Prop where
+  rIn : r ∈ w.routes
+  prIn : pr ∈ r.parents
+  ruleAt : r.rules[i]? = some rule
+  backend : mkBackend w r i rule = some b
+
+/-- no TCPRoute is admitted (but for the protocol) by a listener of another protocol -/
+def TcpListenersCompat (w : World) : Prop :=
+  ∀ r ∈ w.routes, r.tcp = true → ∀ pr ∈ r.parents, ∀ gw l, AdmittedNoProto w r pr gw l → ProtoCompat r l
+
+/-- `x` is the first element of `l` with its key -/
+def FirstDeclared {α κ} (key : α → κ) (l : List α) (x : α) : Prop :=
+  ∃ pre post, l = pre ++ x :: post ∧ ∀ z ∈ pre, key z ≠ key x
+
+theorem ruleAt_iff {r : Route} {rule : Rule} {i : Nat} : (rule, i) ∈ r.rules.zipIdx ↔ r.rules[i]? = some rule := by
+  rw [List.mem_zipIdx_iff_getElem?]
+
+theorem path_event_of_mem {fx : Bool} {w : World} {p : PathDecl} (h : p ∈ pathDecls fx w) : Ev.path p ∈ events fx w := by
+  unfold pathDecls at h
+  obtain ⟨e, he, hp⟩ := List.mem_filterMap.1 h
+  cases e with
+  | path d => simp only [Ev.path?, Option.some.injEq] at hp; subst hp; exact he
+  | tcp d => simp [Ev.path?] at hp
+
+theorem tcp_event_of_mem {fx : Bool} {w : World} {t : TcpDecl} (h : t ∈ tcpDecls fx w) : Ev.tcp t ∈ events fx w := by
+  unfold tcpDecls at h
+  obtain ⟨e, he, hp⟩ := List.mem_filterMap.1 h
+  cases e with
+  | path d => simp [Ev.tcp?] at hp
+  | tcp d => simp only [Ev.tcp?, Option.some.injEq] at hp; subst hp; exact he
+
+/-- **nothing_else** (hosts/paths, full strength): every path of the resulting configuration is the
+declaration of an HTTPRoute rule through a listener that the Spec admits, for one of the rule's
+matches and one of the hostnames `filterHostnames` keeps, and points to that rule's backend. -/
+theorem nothing_else_paths (fx : Bool) (w : World) (hwf : WF w) (p : PathDecl) (hp : p ∈ (sync fx w).paths) :
+    ∃ r pr gw l rule i, Site w r pr rule i p.backend ∧ r.tcp = false ∧ Admitted w r pr gw l ∧
+      ∃ m ∈ effMatches rule, ∃ h ∈ filterHostnames l.host r.hostnames,
+        p.host = normHost h ∧ p.link = linkOf m := by
+  have he := path_event_of_mem (firsts_sub hp)
+  obtain ⟨r, hr, pr, hpr, gw, l, ha, rule, i, b, hri, hb, he⟩ := (mem_events_iff fx w _).1 he
+  obtain ⟨ht, m, hm, h, hh, rfl⟩ := (mem_ruleEvents_path r l rule b p).1 he
+  exact ⟨r, pr, gw, l, rule, i, ⟨hr, hpr, ruleAt_iff.1 hri, hb⟩, ht,
+    (attach_iff_http fx w hwf r pr gw l ht).1 ha, m, hm, h, hh, rfl, rfl⟩
+
+/-- **nothing_else** (TCP services), both variants: the Spec's rule, with the protocol bound for the
+repaired variant only -/
+theorem nothing_else_tcp_code (fx : Bool) (w : World) (hwf : WF w) (t : TcpDecl) (ht : t ∈ (sync fx w).tcps) :
+    ∃ r pr gw l rule i, Site w r pr rule i t.backend ∧ r.tcp = true ∧ AdmittedNoProto w r pr gw l ∧
+      (fx = true → ProtoCompat r l) ∧ t.port = l.port := by
+  have he := tcp_event_of_mem (firsts_sub ht)
+  obtain ⟨r, hr, pr, hpr, gw, l, ha, rule, i, b, hri, hb, he⟩ := (mem_events_iff fx w _).1 he
+  obtain ⟨htcp, rfl⟩ := (mem_ruleEvents_tcp r l rule b t).1 he
+  have := (attach_iff_code fx w hwf r pr gw l).1 ha
+  exact ⟨r, pr, gw, l, rule, i, ⟨hr, hpr, ruleAt_iff.1 hri, hb⟩, htcp, this.1, this.2, rfl⟩
+
+/-- **nothing_else** (TCP services), full strength, for the repaired variant -/
+theorem nothing_else_tcp_fixed (w : World) (hwf : WF w) (t : TcpDecl) (ht : t ∈ (sync true w).tcps) :
+    ∃ r pr gw l rule i, Site w r pr rule i t.backend ∧ r.tcp = true ∧ Admitted w r pr gw l ∧
+      t.port = l.port := by
+  obtain ⟨r, pr, gw, l, rule, i, site, htcp, ha, hp, hport⟩ := nothing_else_tcp_code true w hwf t ht
+  exact ⟨r, pr, gw, l, rule, i, site, htcp, ⟨ha, hp rfl⟩, hport⟩
+
+/-- **nothing_else** (TCP services) for the code as found, under the side condition; full strength fails
+(`nothing_else_tcp_counterexample`) -/
+theorem nothing_else_tcp_partial (fx : Bool) (w : World) (hwf : WF w) (hc : TcpListenersCompat w) (t : TcpDecl)
+    (ht : t ∈ (sync fx w).tcps) :
+    ∃ r pr gw l rule i, Site w r pr rule i t.backend ∧ r.tcp = true ∧ Admitted w r pr gw l ∧
+      t.port = l.port := by
+  obtain ⟨r, pr, gw, l, rule, i, site, htcp, ha, _, hport⟩ := nothing_else_tcp_code fx w hwf t ht
+  exact ⟨r, pr, gw, l, rule, i, site, htcp, ⟨ha, hc r site.rIn htcp pr site.prIn gw l ha⟩, hport⟩
+
+/-- **nothing_else** (backends): every backend is the one `createBackend` builds for a rule of a route
+that reaches a listener admitting it (Spec's rule; for a TCPRoute but for the protocol) -/
+theorem nothing_else_backends (fx : Bool) (w : World) (hwf : WF w) (b : Backend) (hb : b ∈ (sync fx w).backends) :
+    ∃ r pr gw l rule i, Site w r pr rule i b ∧ AdmittedNoProto w r pr gw l ∧
+      ((r.tcp = false ∨ fx = true) → Admitted w r pr gw l) := by
+  have hm := firsts_sub hb
+  obtain ⟨e, he, rfl⟩ := List.mem_map.1 hm
+  obtain ⟨r, hr, pr, hpr, gw, l, ha, rule, i, b', hri, hb', he'⟩ := (mem_events_iff fx w _).1 he
+  have hbe : e.backend = b' := by
+    cases e with
+    | path d => obtain ⟨_, m, _, h, _, rfl⟩ := (mem_ruleEvents_path r l rule b' d).1 he'; rfl
+    | tcp d => obtain ⟨_, rfl⟩ := (mem_ruleEvents_tcp r l rule b' d).1 he'; rfl
+  rw [hbe]
+  have hc := (attach_iff_code fx w hwf r pr gw l).1 ha
+  refine ⟨r, pr, gw, l, rule, i, ⟨hr, hpr, ruleAt_iff.1 hri, hb'⟩, hc.1, ?_⟩
+  rintro (ht | hfx)
+  · exact (attach_iff_http fx w hwf r pr gw l ht).1 ha
+  · exact ⟨hc.1, hc.2 hfx⟩
+
+/-- the code opens TCP port 80 for a TCPRoute that no listener admits -/
+theorem nothing_else_tcp_counterexample :
+    WF wBad ∧ (sync false wBad).tcps.map (·.port) = [80] ∧
+      ¬ ∃ r ∈ wBad.routes, ∃ pr gw, ∃ l ∈ gw.listeners, gw ∈ wBad.gws ∧ Admitted wBad r pr gw l := by
+  refine ⟨wBad_wf, by decide +kernel, ?_⟩
+  rintro ⟨r, hr, pr, gw, l, hl, hgw, hadm⟩
+  simp only [wBad, List.mem_singleton] at hr hgw
+  subst hr hgw
+  simp only [gwBad, List.mem_singleton] at hl
+  subst hl
+  exact not_admitted_bad pr _ hadm
+
+/-! ## produced_rules -/
+
+theorem event_of_site {fx : Bool} {w : World} {r : Route} {pr : ParentRef} {gw : Gateway} {l : Listener} {rule : Rule}
+    {i : Nat} {b : Backend} (site : Site w r pr rule i b) (ha : attaches fx w r pr gw l = true)
+    {e : Ev} (he : e ∈ ruleEvents r l rule b) : e ∈ events fx w :=
+  (mem_events_iff fx w e).2 ⟨r, site.rIn, pr, site.prIn, gw, l, ha, rule, i, b, ruleAt_iff.2 site.ruleAt, site.backend, he⟩
+
+/-- **produced_rules** (HTTPRoute): for every admitted (listener, rule with a resolvable backendRef,
+match, hostname) the host has a path with that link; the path is the FIRST declared one with that
+(host, link) in declaration order (`pathDecls`: routes by creation time then namespace/name, then
+parentRefs, listeners, rules, matches, hostnames), and the rule's backend exists. -/
+theorem produced_rules (fx : Bool) (w : World) (hwf : WF w) {r : Route} {pr : ParentRef} {gw : Gateway} {l : Listener}
+    {rule : Rule} {i : Nat} {b : Backend} (site : Site w r pr rule i b) (ht : r.tcp = false)
+    (hadm : Admitted w r pr gw l) {m : HMatch} (hm : m ∈ effMatches rule)
+    {h : String} (hh : h ∈ filterHostnames l.host r.hostnames) :
+    (∃ p ∈ (sync fx w).paths, p.host = normHost h ∧ p.link = linkOf m ∧ FirstDeclared pathKey (pathDecls fx w) p) ∧
+    (∃ b' ∈ (sync fx w).backends, b'.id = backendID r i ∧
+      FirstDeclared (fun x : Backend => x.id) ((events fx w).map Ev.backend) b') := by
+  have ha := (attach_iff_http fx w hwf r pr gw l ht).2 hadm
+  let d : PathDecl := { host := normHost h, link := linkOf m, backend := b }
+  have he : Ev.path d ∈ events fx w :=
+    event_of_site site ha ((mem_ruleEvents_path r l rule b d).2 ⟨ht, m, hm, h, hh, rfl⟩)
+  have hd : d ∈ pathDecls fx w := List.mem_filterMap.2 ⟨_, he, rfl⟩
+  obtain ⟨p, hp, hk, pre, post, hsplit, hfirst⟩ := firsts_complete pathKey (pathDecls fx w) d hd
+  have hk' : p.host = normHost h ∧ p.link = linkOf m := by
+    simp only [pathKey, Prod.mk.injEq] at hk; exact hk
+  have hbm : b ∈ (events fx w).map Ev.backend := List.mem_map.2 ⟨_, he, rfl⟩
+  obtain ⟨b', hb', hkb, pre', post', hsplit', hfirst'⟩ :=
+    firsts_complete (fun x : Backend => x.id) ((events fx w).map Ev.backend) b hbm
+  exact ⟨⟨p, hp, hk'.1, hk'.2, pre, post, hsplit, hfirst⟩,
+    ⟨b', hb', hkb.trans (mkBackend_id site.backend).1, pre', post', hsplit', hfirst'⟩⟩
+
+/-- **produced_rules** (TCPRoute): an admitted (listener, rule with a resolvable backendRef) has its
+port configured by the first declared TCP rule for that port, and its backend exists. -/
+theorem produced_tcp (fx : Bool) (w : World) (hwf : WF w) {r : Route} {pr : ParentRef} {gw : Gateway} {l : Listener}
+    {rule : Rule} {i : Nat} {b : Backend} (site : Site w r pr rule i b) (ht : r.tcp = true)
+    (hadm : Admitted w r pr gw l) :
+    (∃ t ∈ (sync fx w).tcps, t.port = l.port ∧ FirstDeclared (fun x : TcpDecl => x.port) (tcpDecls fx w) t) ∧
+    (∃ b' ∈ (sync fx w).backends, b'.id = backendID r i) := by
+  have ha := (attach_iff_partial fx w hwf r pr gw l hadm.2).2 hadm
+  let d : TcpDecl := { port := l.port, backend := b }
+  have he : Ev.tcp d ∈ events fx w :=
+    event_of_site site ha ((mem_ruleEvents_tcp r l rule b d).2 ⟨ht, rfl⟩)
+  have hd : d ∈ tcpDecls fx w := List.mem_filterMap.2 ⟨_, he, rfl⟩
+  obtain ⟨t, htm, hk, pre, post, hsplit, hfirst⟩ := firsts_complete (fun x : TcpDecl => x.port) (tcpDecls fx w) d hd
+  have hbm : b ∈ (events fx w).map Ev.backend := List.mem_map.2 ⟨_, he, rfl⟩
+  obtain ⟨b', hb', hkb, _⟩ := firsts_complete (fun x : Backend => x.id) ((events fx w).map Ev.backend) b hbm
+  exact ⟨⟨t, htm, hk, pre, post, hsplit, hfirst⟩, ⟨b', hb', hkb.trans (mkBackend_id site.backend).1⟩⟩
+
+/-- one path per (host, path, match type, headers); one backend per id; one TCP service per port -/
+theorem one_per_key (fx : Bool) (w : World) :
+    (∀ p q, p ∈ (sync fx w).paths → q ∈ (sync fx w).paths → p.host = q.host → p.link = q.link → p = q) ∧
+    (∀ a b, a ∈ (sync fx w).backends → b ∈ (sync fx w).backends → a.id = b.id → a = b) ∧
+    (∀ s t, s ∈ (sync fx w).tcps → t ∈ (sync fx w).tcps → s.port = t.port → s = t) :=
+  ⟨fun p q hp hq h1 h2 => firsts_key_inj pathKey _ p q hp hq (by simp [pathKey, h1, h2]),
+   fun a b ha hb h => firsts_key_inj _ _ a b ha hb h,
+   fun s t hs ht h => firsts_key_inj _ _ s t hs ht h⟩
+
+/-! ## declaration order: older route first, then namespace/name -/
+
+theorem routeLe_total (a b : Route) : (routeLe a b || routeLe b a) = true := by
+  unfold routeLe
+  by_cases h : a.ts = b.ts
+  · simp only [h, ↓reduceIte, Bool.or_eq_true, decide_eq_true_eq]
+    exact String.le_total _ _
+  · have h' : ¬ b.ts = a.ts := fun e => h e.symm
+    simp only [h, h', ↓reduceIte, Bool.or_eq_true, decide_eq_true_eq]
+    omega
+
+theorem routeLe_trans (a b c : Route) (h1 : routeLe a b = true) (h2 : routeLe b c = true) : routeLe a c = true := by
+  unfold routeLe at *
+  by_cases hab : a.ts = b.ts <;> by_cases hbc : b.ts = c.ts
+  · rw [if_pos hab] at h1; rw [if_pos hbc] at h2; rw [if_pos (hab.trans hbc)]
+    simp only [decide_eq_true_eq] at *
+    exact String.le_trans h1 h2
+  · rw [if_pos hab] at h1; rw [if_neg hbc] at h2
+    have : ¬ a.ts = c.ts := by omega
+    rw [if_neg this]
+    simp only [decide_eq_true_eq] at *; omega
+  · rw [if_neg hab] at h1; rw [if_pos hbc] at h2
+    simp only [decide_eq_true_eq] at h1
+    have : ¬ a.ts = c.ts := by omega
+    rw [if_neg this]
+    simp only [decide_eq_true_eq]; omega
+  · rw [if_neg hab] at h1; rw [if_neg hbc] at h2
+    simp only [decide_eq_true_eq] at h1 h2
+    have : ¬ a.ts = c.ts := by omega
+    rw [if_neg this]
+    simp only [decide_eq_true_eq]; omega
+
+/-- the routes are visited oldest first, ties by `namespace/name` -/
+theorem sortRoutes_sorted (rs : List Route) :
+    (sortRoutes rs).Pairwise fun a b => a.ts < b.ts ∨ (a.ts = b.ts ∧ rkey a ≤ rkey b) := by
+  have := pairwise_isort routeLe routeLe_trans routeLe_total rs
+  unfold sortRoutes
+  refine this.imp ?_
+  intro a b h
+  unfold routeLe at h
+  by_cases hab : a.ts = b.ts
+  · simp only [hab, ↓reduceIte, decide_eq_true_eq] at h; exact Or.inr ⟨hab, h⟩
+  · simp only [hab, ↓reduceIte, decide_eq_true_eq] at h; exact Or.inl h
+
+/-! ## weighted servers -/
+
+theorem rebalance_length (cls : List C16.Cluster) (i : Int) : (C16.rebalance cls i).length = cls.length := by
+  unfold C16.rebalance C16.rebalanceWith
+  simp only
+  split
+  · simp
+  · split <;> simp
+
+theorem weighted_targets_aux (groups : List (Int × List String)) (ws : List (Option Int))
+    (h : ws.length = groups.length) :
+    ((groups.zip ws).flatMap fun gw => gw.1.2.map fun e => (e, gw.2.getD 0)).map (·.1) = groups.flatMap (·.2) := by
+  induction groups generalizing ws with
+  | nil => simp
+  | cons g gs ih =>
+    cases ws with
+    | nil => simp at h
+    | cons o os =>
+      simp only [List.length_cons, Nat.add_right_cancel_iff] at h
+      simp only [List.zip_cons_cons, List.flatMap_cons, List.map_append, List.map_map]
+      rw [ih os h]
+      congr 1
+      have : ((fun x : String × Int => x.1) ∘ fun e : String => (e, o.getD 0)) = id := rfl
+      rw [this, List.map_id]
+
+theorem nameServers_targets (ts : List (String × Int)) : (nameServers ts).map (·.target) = ts.map (·.1) := by
+  unfold nameServers
+  simp only [List.map_map]
+  have : ((fun s : Server => s.target) ∘ fun x : (String × Int) × Nat =>
+      ({ name := "srv" ++ pad3 (x.2 + 1), target := x.1.1, weight := x.1.2 } : Server)) = fun x => x.1.1 := rfl
+  rw [this]
+  have h2 : (fun x : (String × Int) × Nat => x.1.1) = (fun y : String × Int => y.1) ∘ Prod.fst := rfl
+  rw [h2, ← List.map_map, List.zipIdx_map_fst]
+
+/-- the servers of a rule's backend are the ready endpoints of its resolvable backendRefs (service
+of the route's namespace, port found), in backendRef order, each list sorted by `ip:port` -/
+theorem backend_servers {w : World} {r : Route} {i : Nat} {rule : Rule} {b : Backend}
+    (h : mkBackend w r i rule = some b) :
+    b.id = backendID r i ∧ b.tcp = r.tcp ∧
+      b.servers.map (·.target) = (refGroups w r rule).flatMap (·.2) := by
+  refine ⟨(mkBackend_id h).1, (mkBackend_id h).2, ?_⟩
+  unfold mkBackend at h
+  simp only at h
+  split at h
+  · cases h
+  · cases h
+    simp only
+    rw [nameServers_targets]
+    unfold weighted
+    simp only
+    apply weighted_targets_aux
+    rw [rebalance_length, List.length_map]
+
+
+def toCl (g : Int × List String) : C16.Cluster := { weight := g.1, length := g.2.length }
+
+theorem rebalance_some (cls : List C16.Cluster) (i : Int) (c : C16.Cluster) (o : Option Int)
+    (h : (c, o) ∈ cls.zip (C16.rebalance cls i)) (hl : c.length ≠ 0) : ∃ w, o = some w := by
+  unfold C16.rebalance C16.rebalanceWith at h
+  simp only at h
+  split at h
+  · exact ⟨_, (C16.mem_zip_map h).2⟩
+  · split at h
+    · exact ⟨_, (C16.mem_zip_map h).2⟩
+    · have := (C16.mem_zip_map h).2
+      unfold C16.newWeight at this
+      rw [if_neg hl] at this
+      simp only at this
+      split at this <;> exact ⟨_, this⟩
+
+/-- a server gets weight 0 exactly when its backendRef is configured with weight 0 (C16 `zero_iff`) -/
+theorem weighted_zero_iff (groups : List (Int × List String)) (hw : ∀ g ∈ groups, 0 ≤ g.1)
+    (e : String) (wt : Int) (h : (e, wt) ∈ weighted groups) :
+    ∃ g ∈ groups, e ∈ g.2 ∧ (wt = 0 ↔ g.1 = 0) := by
+  unfold weighted at h
+  simp only [List.mem_flatMap, List.mem_map, Prod.mk.injEq] at h
+  obtain ⟨⟨g, o⟩, hz, e', he', rfl, rfl⟩ := h
+  have hg : g ∈ groups := (List.of_mem_zip hz).1
+  refine ⟨g, hg, he', ?_⟩
+  have hz' : (toCl g, o) ∈ (groups.map toCl).zip (C16.rebalance (groups.map toCl) 128) := by
+    rw [List.zip_map_left]
+    exact List.mem_map.2 ⟨(g, o), hz, rfl⟩
+  have hl : (toCl g).length ≠ 0 := by
+    simp only [toCl]
+    cases hg2 : g.2 with
+    | nil => rw [hg2] at he'; cases he'
+    | cons x xs => simp; omega
+  obtain ⟨w, rfl⟩ := rebalance_some _ _ _ _ hz' hl
+  have hw' : ∀ c ∈ groups.map toCl, 0 ≤ c.weight := by
+    intro c hc
+    obtain ⟨g', hg', rfl⟩ := List.mem_map.1 hc
+    exact hw g' hg'
+  exact C16.zero_iff (groups.map toCl) 128 hw' (toCl g) w hz'
+
+
+theorem mem_nameServers {ts : List (String × Int)} {s : Server} (h : s ∈ nameServers ts) :
+    (s.target, s.weight) ∈ ts := by
+  unfold nameServers at h
+  obtain ⟨⟨tw, i⟩, hmem, rfl⟩ := List.mem_map.1 h
+  have := (List.mem_zipIdx_iff_getElem?.1 hmem)
+  exact List.mem_of_getElem? this
+
+/-- **weighted servers**: every server of a rule's backend is a ready endpoint of one of the rule's
+resolvable backendRefs and is drained (weight 0) exactly when that backendRef has weight 0 -/
+theorem backend_weight_zero_iff {w : World} {r : Route} {i : Nat} {rule : Rule} {b : Backend}
+    (h : mkBackend w r i rule = some b) (hw : ∀ g ∈ refGroups w r rule, 0 ≤ g.1) (s : Server) (hs : s ∈ b.servers) :
+    ∃ g ∈ refGroups w r rule, s.target ∈ g.2 ∧ (s.weight = 0 ↔ g.1 = 0) := by
+  unfold mkBackend at h
+  simp only at h
+  split at h
+  · cases h
+  · cases h
+    exact weighted_zero_iff _ hw _ _ (mem_nameServers hs)
+
+/-- facts regenerated from the Go source on every run: the gateway converter refuses a nil
+allowedRoutes / namespaces / From, compares the section name in both route loops, rebalances with
+base 128, and reads `listener.Protocol` only in the protocol test of the repaired variant (so the
+variant the driver models is the one the source has) -/
+theorem facts_c10 : Facts.c10NilAllowedRoutesRefused = true ∧
+    Facts.c10NilNamespacesRefused = true ∧ Facts.c10SectionNameCompared = 2 ∧
+    Facts.c16GatewayBase = 128 ∧
+    (Facts.c10TcpProtocolChecked = false → Facts.c10ProtocolReads = 0) ∧
+    (Facts.c10TcpProtocolChecked = true → Facts.c10ProtocolReads = 3) := by decide
+
+/-- the variant of the current source tree satisfies the full-strength `attach_iff` iff it is the
+repaired one; for the tree as found the finding applies -/
+theorem current_variant (w : World) (hwf : WF w) (r : Route) (pr : ParentRef) (gw : Gateway) (l : Listener)
+    (h : Facts.c10TcpProtocolChecked = true) :
+    attaches Facts.c10TcpProtocolChecked w r pr gw l = true ↔ Admitted w r pr gw l := by
+  rw [h]; exact attach_iff_fixed w hwf r pr gw l
+
+/-! ## non-vacuity -/
+
+def lOk : Listener :=
+  { name := "l1", host := none, proto := "HTTP", port := 80,
+    allowed := some { kinds := [⟨none, "HTTPRoute"⟩], nss := some { frm := some "Selector", sel := some [⟨"env", "In", ["dev", "prod"]⟩] } } }
+def gwOk : Gateway := { ns := "g", name := "gw1", cls := "hap", listeners := [lOk] }
+def prOk : ParentRef := { group := none, kind := none, ns := some "g", name := "gw1", sect := some "l1" }
+def ruleOk : Rule :=
+  { mts := [⟨some "PathPrefix", some "/app", "-"⟩],
+    refs := [{ svc := "s1", port := some 8080, weight := some 3 }, { svc := "s2", port := some 8080, weight := some 1 }] }
+def rOk : Route :=
+  { tcp := false, ns := "o", name := "r1", ts := 1, parents := [prOk], hostnames := ["a.local"], rules := [ruleOk] }
+def wOk : World :=
+  { classes := [("hap", true), ("oth", false)], nss := [("g", [("env", "prod")]), ("o", [("env", "dev")])],
+    gws := [gwOk, { gwOk with name := "gw2", cls := "oth" }], routes := [rOk],
+    svcs := [{ ns := "o", name := "s1", ports := [(8080, ["10.0.1.1:8080"])] },
+             { ns := "o", name := "s2", ports := [(8080, ["10.0.1.3:8080", "10.0.1.1:8080"])] }] }
+
+theorem wOk_wf : WF wOk := by
+  constructor <;> simp [wOk, gwOk]
+
+/-- the hypotheses of `attach_iff`/`produced_rules` are satisfiable: a cross-namespace HTTPRoute
+admitted by a label selector, section name and kind list -/
+example : attaches false wOk rOk prOk gwOk lOk = true ∧ attaches true wOk rOk prOk gwOk lOk = true := by decide
+example : Admitted wOk rOk prOk gwOk lOk := (attach_iff_http false wOk wOk_wf rOk prOk gwOk lOk rfl).1 (by decide)
+/-- … and refused through the same listeners of the foreign-class gateway -/
+example : attaches false wOk rOk { prOk with name := "gw2" } { gwOk with name := "gw2", cls := "oth" } lOk = false := by decide
+/-- the model output of that world: one host, one path, the 3:1 weights over 1 and 2 replicas, and
+two servers with the same address (two backendRefs resolving to 10.0.1.1:8080) under unique names -/
+example : render (sync false wOk) =
+    "a.local{/app~prefix~->o_r1__rule0}#o_r1__rule0~0{srv001=10.0.1.1:8080*256,srv002=10.0.1.1:8080*42,srv003=10.0.1.3:8080*42}#-" := by
+  decide +kernel
+example : Site wOk rOk prOk ruleOk 0
+    { id := "o_r1__rule0", tcp := false,
+      servers := [⟨"srv001", "10.0.1.1:8080", 256⟩, ⟨"srv002", "10.0.1.1:8080", 42⟩, ⟨"srv003", "10.0.1.3:8080", 42⟩] } :=
+  ⟨by simp [wOk], by simp [rOk], by decide, by decide +kernel⟩
+/-- `TcpListenersCompat` is satisfiable and not trivial: a TCPRoute through a TCP listener -/
+example : attaches true { wBad with gws := [{ gwBad with listeners := [{ lBad with proto := "TCP" }] }] } rBad prBad
+    { gwBad with listeners := [{ lBad with proto := "TCP" }] } { lBad with proto := "TCP" } = true := by decide
+
 end HapVerif.C10
